@@ -378,6 +378,7 @@ func (x *Exec) execInstr(fc *funcCtx, n *node, ins ssa.Instruction) {
 			env[i] = x.freshValue(i.Type(), i.Name(), n.guard, st)
 		}
 	case *ssa.Store:
+		x.atStore(fc, n, i, op(i.Addr))
 		x.storeCheck(n, op(i.Addr), i.Pos())
 		x.store(n, op(i.Addr), op(i.Val), i.Val.Type(), i.Pos())
 	case *ssa.Slice:
@@ -1100,4 +1101,74 @@ func litInt(t *Term) (int64, bool) {
 		return v, true
 	}
 	return 0, false
+}
+
+// storeKey names the field a store instruction writes ("Call.Error"), "" if it is not a direct field store.
+func storeKey(i *ssa.Store) string {
+	fa, ok := i.Addr.(*ssa.FieldAddr)
+	if !ok {
+		return ""
+	}
+	pt, ok := fa.X.Type().Underlying().(*types.Pointer)
+	if !ok {
+		return ""
+	}
+	st, ok := pt.Elem().Underlying().(*types.Struct)
+	if !ok {
+		return ""
+	}
+	return typeName(pt.Elem()) + "." + st.Field(fa.Field).Name()
+}
+
+// atStore: ghost updates attached to a field store (`ghostat store Type.f#n: target = expr`, arg0 = the object),
+// then the ownership obligation of token-owned fields (`field Type.f: owned <tok>`): only the holder of the
+// object's token (or the creator of a still-private object, or anyone for library-internal objects) may write it.
+func (x *Exec) atStore(fc *funcCtx, n *node, i *ssa.Store, ptr Value) {
+	key := storeKey(i)
+	if key == "" {
+		return
+	}
+	lv, ok := ptr.(LocV)
+	if !ok || lv.Kind != "field" {
+		return
+	}
+	name := "store " + key
+	if fc.top {
+		ord := 0
+		found := false
+		for _, b := range fc.fn.Blocks {
+			for _, bi := range b.Instrs {
+				if s2, ok := bi.(*ssa.Store); ok && storeKey(s2) == key {
+					ord++
+					if bi == ssa.Instruction(i) {
+						found = true
+						break
+					}
+				}
+			}
+			if found {
+				break
+			}
+		}
+		for _, cl := range fc.clauses {
+			if cl.Kind != "ghostat" || cl.Block != name || cl.Ord != ord {
+				continue
+			}
+			env := x.localSpecEnv(n.st, n.guard, true)
+			env.vars["arg0"] = Scalar{T: lv.Obj, Ty: types.NewPointer(x.P.LookupType(lv.Outer))}
+			x.applyGhostSet(cl, env, n.st)
+			x.reportSpecErrors(env, x.TopName, cl)
+			fc.atcallSeen[cl] = true
+		}
+	}
+	cls := x.P.Spec.Fields[key]
+	if strings.HasPrefix(cls, "owned ") {
+		tk := strings.TrimSpace(strings.TrimPrefix(cls, "owned "))
+		if n.st.FreshObjs[lv.Obj] > 0 {
+			return
+		}
+		cur := x.objGet(n.st, "ghost."+tk, IntS, lv.Obj)
+		internal := x.objGet(n.st, "ghost.internal", BoolS, lv.Obj)
+		x.Oblige("owned", fmt.Sprintf("write of %s needs the %s token of the object (%s)", key, tk, x.srcExpr(i.Pos(), "selector")), fmt.Sprint(i.Pos()), i.Pos(), n.guard, Or(Eq(cur, IntLit(2)), internal), nil)
+	}
 }
